@@ -15,7 +15,9 @@ RULE = ('product tree letters -> option set; each leaf = base call + 4 scaled + 
 ASSUMPTIONS = ['scale and rate factors are powers of two (exact commutation; stated in the property)',
                'rate covariance only for filter lengths given in cycles']
 
-SCALES = [2.0 ** -10, 2.0 ** -3, 2.0, 2.0 ** 10]
+SCALES = [2.0 ** -50, 2.0 ** -10, 2.0, 2.0 ** 40]
+SCALES_T = [2.0 ** -50, 2.0 ** -30, 2.0 ** -10, 2.0 ** -3, 2.0, 2.0 ** 10, 2.0 ** 40]
+FULL = [False]
 RATES = [.5, 2.0, 4.0]
 VOLT = ('volt_peak', 'volt_trough', 'volt_rise', 'volt_decay', 'volt_amp', 'band_amp')
 
@@ -29,10 +31,13 @@ def evaluate(case):
     if not ok:
         return SKIP(why)
     sgn = {'method': o['burst_method'], 'centre': o['center_extrema'], 'devs': list(devs)}
-    base = run_cf(sig, o, return_samples=True)
+    from bycycle.features import compute_features
+    kw = S.call_kwargs(o)
+    kw['return_samples'] = True          # ONE set of option objects, reused for every call of this case (as a user would)
+    base = compute_features(np.array(sig), o['fs'], o['f_range'], **kw)
     nev = 1
-    for a in SCALES:
-        d = run_cf(sig * a, o, return_samples=True)
+    for a in (SCALES_T if FULL[0] else SCALES):
+        d = compute_features(np.array(sig) * a, o['fs'], o['f_range'], **kw)
         nev += 1
         exp = base.copy()
         for c in VOLT:
@@ -43,32 +48,68 @@ def evaluate(case):
     fk = o['filter_kwargs'] or {}
     if 'n_seconds' not in fk:
         for c in RATES:
-            o2 = dict(o)
-            o2['fs'] = o['fs'] * c
-            o2['f_range'] = (o['f_range'][0] * c, o['f_range'][1] * c)
-            d = run_cf(sig, o2, return_samples=True)
+            d = compute_features(np.array(sig), o['fs'] * c, (o['f_range'][0] * c, o['f_range'][1] * c), **kw)
             nev += 1
             dd = diff_tables(d, base, exact=True)
             if dd:
                 return VIOL(dict(sgn, kind='rate', factor=c), 'multiplying fs and f_range by %g changes the table: %s' % (c, dd),
                             evals=nev)
+        again = compute_features(np.array(sig), o['fs'], o['f_range'], **kw)
+        nev += 1
+        dd = diff_tables(again, base, exact=True)
+        if dd:
+            return VIOL(dict(sgn, kind='rate', factor=1), 'repeating the original call after the re-rated calls changes the table: ' + dd,
+                        evals=nev)
     nt = bool(base['is_burst'].any()) and base['volt_amp'].nunique() >= 2
     return OK(outcome=table_hash(base), nontrivial=nt, evals=nev)
+
+
+def eval_tiny(case):
+    """Cyclepoint level, filter-sensitive inputs: every signal in {-1,0,1}^N under a 9-tap band-pass (fs=8, band 1-3 Hz,
+    1 cycle); the SAME option object is reused for the re-rated and re-scaled calls."""
+    from bycycle.features import compute_cyclepoints
+    from bcmc.ref.extrema import ref_extrema
+    sig = np.array(case, dtype=float)
+    kw = {'filter_kwargs': {'n_cycles': 1}}
+    r = ref_extrema(sig, 8, (1, 3), first_extrema='peak', filter_kwargs={'n_cycles': 1})
+    if not r['ok']:
+        return SKIP('degenerate narrow-band signal')
+    base = compute_cyclepoints(sig.copy(), 8, (1, 3), **kw)
+    nev = 1
+    for c in RATES:
+        d = compute_cyclepoints(sig.copy(), 8 * c, (1 * c, 3 * c), **kw)
+        nev += 1
+        dd = diff_tables(d, base, exact=True)
+        if dd:
+            return VIOL({'kind': 'rate', 'factor': c, 'level': 'cyclepoints'},
+                        'multiplying fs and f_range by %g changes the cyclepoints: %s' % (c, dd), evals=nev)
+    for a in (2.0 ** -50, 2.0 ** 40):
+        d = compute_cyclepoints(sig * a, 8, (1, 3), **kw)
+        nev += 1
+        dd = diff_tables(d, base, exact=True)
+        if dd:
+            return VIOL({'kind': 'scale', 'factor': a, 'level': 'cyclepoints'},
+                        'scaling the signal by %g changes the cyclepoints: %s' % (a, dd), evals=nev)
+    return OK(outcome=table_hash(base), nontrivial=len(base) >= 1, evals=nev)
 
 
 OPTS_Q = [(), ('trough',), ('amp',), ('amp', 'trough'), ('nc2',), ('b5', 'trough'), ('ns.5',), ('dc5',)]
 
 
 def spaces(tier, seed):
+    FULL[0] = tier != 'quick'
     if tier == 'quick':
         al = S.alphabet(5)
-        return [ProductSpace('W(5,5)xcore', S.word_dims(al, 5) + [OPTS_Q[:4]], evaluate,
+        return [ProductSpace('tiny{-1,0,1}^9-cyclepoints', [[-1, 0, 1]] * 9, eval_tiny,
+                             describe='compute_cyclepoints on every signal in {-1,0,1}^9 (9-tap filter): rate and scale covariance'),
+                ProductSpace('W(5,5)xdefault', S.word_dims(al, 5) + [[OPTS_Q[0]]], evaluate,
                              bounds={'letters': al, 'scales': SCALES, 'rates': RATES}),
-                ProductSpace('W(4,5)xopts', S.word_dims(S.alphabet(4), 5) + [OPTS_Q[4:]], evaluate,
+                ProductSpace('W(4,5)xopts', S.word_dims(S.alphabet(4), 5) + [OPTS_Q[1:]], evaluate,
                              bounds={'letters': S.alphabet(4), 'scales': SCALES, 'rates': RATES})]
     al = S.alphabet(8, seed, extra=2)
     devs = [d for d in S.option_sets(2, ['trough', 'amp', 'nc2', 'ns.5', 'b1', 'b5', 'band5_12', 'band7_16', 'thr1', 'dc5', 'neg'])]
-    return [ProductSpace('W(10,5)xcore', S.word_dims(al, 5) + [OPTS_Q[:4]], evaluate, bounds={'letters': al}),
+    return [ProductSpace('tiny{-1,0,1}^12-cyclepoints', [[-1, 0, 1]] * 12, eval_tiny),
+            ProductSpace('W(10,5)xcore', S.word_dims(al, 5) + [OPTS_Q[:4]], evaluate, bounds={'letters': al}),
             ProductSpace('W(6,6)xcore', S.word_dims(S.alphabet(6), 6) + [OPTS_Q[:2]], evaluate),
             ProductSpace('W(5,5)x2dev', S.word_dims(S.alphabet(5), 5) + [devs], evaluate,
                          bounds={'option_sets': len(devs), 'max_deviations': 2})]
